@@ -17,12 +17,15 @@ TRUSTED_BASE = ['Coq 8.16.1 kernel; no axioms', 'hand-written model coq/Model/Bi
                 'the BMP reading convention used by the oracle (offset field @10, width @18, height @22, bpp @28, 4-byte aligned stride, bottom-up)',
                 'extraction + runner; harness tie/props/C06.py']
 ASSUMPTIONS = ['scan-line PackBits: no run or literal crosses a row boundary', 'background pixel value is 0']
-LEVEL_TEXT = ('Proof (partial): Coq theorems for the 8-bit decoder that every valid scan-line PackBits encoding (all '
-              'segmentations, by induction over an inductive encoding relation) and raw storage paint exactly the source '
-              'pixels at (w_padding, h_padding) and nothing else, under the stated geometry condition (no pad-byte leak); '
-              'the 1-, 16- and 32-bit decoders are modelled and compared with the implementation on every run, and the '
-              'property is checked directly with an independent BMP reader; the confirmed deviations are open known findings.')
-LEVEL_NOTE = ('Trusted: Coq kernel, hand-written model, extraction, harness (incl. its BMP reader). No axioms. 1/16/32-bit '
+LEVEL_TEXT = ('Proof (partial): Coq theorems for the 8-bit and 1-bit decoders: every valid scan-line PackBits encoding (all '
+              'segmentations, token lists of literals and runs, induction over rows and tokens) and raw storage of an image of any '
+              'size paint exactly the source pixels at (w_padding, h_padding) and background elsewhere, under the stated geometry '
+              'condition (stored row fits the BMP stride: no pad-byte / pad-bit leak); lifted to the property\'s wording: a '
+              'standard BMP reader (offset, width, height, bpp fields, aligned stride, bottom-up) applied to the whole file sees '
+              'the source pixel at every canvas position (C06_bmp8_*_reader, C06_bmp1_*_reader). The 16- and 32-bit decoders are '
+              'modelled and compared with the implementation on every run, and the property is checked directly with an '
+              'independent BMP reader; the confirmed deviations are open known findings.')
+LEVEL_NOTE = ('Trusted: Coq kernel, hand-written model, extraction, harness (incl. its BMP reader). No axioms. 16/32-bit '
               'pixel theorems are not proved (model + correspondence + direct oracle only).')
 TECHNIQUE = 'Coq proof by induction over a PackBits encoding relation with a paint-state invariant + model/implementation correspondence'
 
@@ -353,22 +356,6 @@ def known(c, fail):
         if (d == 16 and (bw * 2) % 4) or (d == 32 and (bw * 3) % 4):
             return 'C06-16-32-stride'
         return None
-    if d == 8 and c['enc'] == 'rle' and bw % 4 == 0 and c['w'] % 2 == 1 and any(c['pad']):
-        ir = run_impl(c)
-        if ir[0] == 'ok':
-            msg, wrong = diff_pixels(c, ir[1])
-            # the only wrong pixels are canvas column 0 of the row above a row with a non-zero pad byte
-            ok = wrong is not None and all(x == 0 and c['pw'] >= 1 and y - c['ph'] + 1 < c['h'] and y - c['ph'] + 1 >= 0
-                                           and c['pad'][y - c['ph'] + 1] != 0 for x, y in wrong)
-            if ok:
-                return 'C06-8bit-pad-leak'
-        return None
-    if d == 1 and c['enc'] == 'rle':
-        inc = (16 - c['w'] % 16) % 16
-        if inc > 0 and c['w'] + inc > stride4(bw):
-            return 'C06-1bit-narrow'
-        if inc > 0 and c['pw'] > 0 and c['w'] + inc + c['pw'] > stride4(bw):
-            return 'C06-1bit-pad-overflow'
     return None
 
 def shrink_candidates(c):
